@@ -135,6 +135,8 @@ def run_case(case):
     unsupported = None
     from lcm.entry_point import get_lcm_function
 
+    if all(e1.reference(b.model, params)[2] for _, params in valuations):
+        return outcome(status="skipped", skip_reason=e1.reference(b.model, valuations[0][1])[2], nontrivial=False)
     solvers = {}
     for jit in case["jits"]:
         try:
